@@ -233,6 +233,7 @@ private:
                        TypeInfo::Origin = TypeInfo::Origin::ExpressionTyping);
     Action typeCheckError(const SyntaxNode*);
 
+    static const Type* resolvedSynonymOf(const Type* tydefNameTy);
     static const Type* resolved(const Type* ty);
     static const Type* unqualifiedAndResolved(const Type* ty);
 
